@@ -33,7 +33,7 @@ CHECKS = {
  "C14": dict(
     text="MC_Protocol models Parser::parse as a state machine (initialize, parse header, consume header, per-instruction parse/consume, finalize) with nondeterministic consumer answers and binary faults; TLC checks the C14 sentences as invariants and emits every complete behaviour; each is concretised (several binaries per behaviour) with a scripted logging consumer and the real callback log and result are validated by ParserTrace (protocol shape checked independently of the grammar: order, at-most-once, obedience to the answers, and - by framing on word counts alone - the k-th instruction callback is for the k-th frame and a parse that ends in finalize called back for every frame). Plus every callback position x {stop, error of four payload types, ParseState values included} on random small modules and mutants; OpSpecConstantOp occurs often inside the streams.",
     note="The consumer's own error value is a unique token per callback position recovered through Display.",
-    technique="TLC model checking (MC_Protocol) + model-generated behaviours replayed on the real parser + TLC trace validation (ParserTrace.tla ShapeOK)",
+    technique="TLC model checking (MC_Protocol) + model-generated behaviours replayed on the real parser + per-opcode and bad-value sweeps + TLC trace validation (ParserTrace.tla ShapeOK, callbacks compared with Parser!Run); thorough: Apalache inductive invariant for any number of instructions (apalache/ProtocolInv.tla)",
     design="5 C14"),
  "C05": dict(
     text="Loader.tla gives the loader as one step per consumed instruction (error table, section placement from the hand-transcribed SpecFacts!LoaderClass) AND a declarative, positional definition of well-bracketedness following the sentences of C05; MC_Loader checks them equivalent (accept iff well-bracketed, error of the FIRST offending instruction, post-conditions) on every class sequence up to length 5 (6). Every sequence is replayed on a real Loader both directly (per-instruction outcome and index) and through load_words; every one of the 787 opcodes is additionally fed in the three contexts (module level / function / block); random loadable and faulty modules are added. LoaderTrace validates outcome, error variant, index and the loaded module section by section. Thorough tier: Apalache discharges an inductive invariant of the bracket automaton for input of any length (spec/apalache/LoaderInv.tla; extra evidence, never the verdict).",
@@ -53,7 +53,7 @@ CHECKS = {
  "C12": dict(
     text="Builder.tla states when each kind of call must fail, where it files its instruction and what the selection is afterwards; MC_Builder checks SelectionValid, ErrLeavesModule, id monotonicity on all call sequences within 2 functions x 1-2 blocks x 1-2 instructions, and emits a shortest history per abstract situation x call. Sampled (quick) / all (thorough) histories are mapped to concrete methods (every terminator, a dozen block instructions, all module-level methods, selections with in- and out-of-range indices, all four insert points) and replayed; every public method is called once in a legal and once in an illegal situation; random histories over ALL ~1150 callable methods are added. BuilderTrace validates result, selection and the whole module after every call (a failing call must leave instructions AND selection as they were, as MC_Builder!Fail states); panics are data. BuilderExtraTrace (select_function_by_name, find_return_block_indices, insert_types_global_values, dedup_insert_type, version) is specification growth beyond the property: reported in the evidence, never a verdict.",
     note="Which error variant a failing call returns is unconstrained. Insertion offsets stay within the selected block, as the property says.",
-    technique="TLC model checking (MC_Builder) + model-generated histories replayed on the real Builder + TLC trace validation (BuilderTrace.tla)",
+    technique="TLC model checking (MC_Builder) + model-generated histories replayed on the real Builder + TLC trace validation (BuilderTrace.tla); thorough: Apalache inductive invariant for SelectionValid over any number of functions / blocks / calls (apalache/BuilderSel.tla)",
     design="5 C12"),
  "C13": dict(
     text="BuilderTrace tracks the set of values the hidden id counter may have (a failing call may burn one id) and checks: fresh ids are the counter value, strictly increasing, never repeated; new()/default() start at 1, new_from_module at the bound; module() writes a bound equal to the counter and above every allocated id; an implicit type request returns the first earlier declaration with the same opcode and operands and adds nothing, otherwise appends exactly one declaration with a fresh id; explicit requests always append. Driven by the MC_Builder histories (type keys x implicit/explicit, constants, failing calls, three constructors), by every generated type method, and by random histories. Thorough tier: Apalache discharges an inductive invariant of the id counter for histories of any length (spec/apalache/BuilderIds.tla; extra evidence).",
@@ -88,7 +88,7 @@ CHECKS = {
  "C19": dict(
     text="Storage.tla (append / fetch_or_append with a possibly non-reflexive equality); MC_Storage checks the C19 sentences on every operation sequence up to 5 (6) for three element types: f64 with +0.0 / -0.0 (equal but distinguishable) and NaN (unequal to itself); a key/tag type equal iff same key and different tag (non-reflexive); numbers equal iff at distance <= 1 (reflexive, symmetric, NOT transitive). Every sequence is replayed on the corresponding real Storage<T>, with lookups through ALL tokens handed out so far after every step; random sequences up to 150 operations are added; StorageTrace validates tokens and lookups. At scale: StorageBulk.tla reduces the operations on the value list 0, 1, 2, ... to a counter (MC_StorageBulk checks that the reduction is Storage!Apply), and StorageBulkTrace validates runs over 70 000 (quick) / 400 000 (thorough) values of a real Storage<u32> - beyond 2^16 - with lookups through all tokens after every run (observations run-length encoded without loss).",
     note="Values are compared by label (class, tag, equality mode); a lookup must yield the STORED value, not merely an equal one.",
-    technique="TLC model checking (MC_Storage) + replay of all model sequences on the real Storage + TLC trace validation (StorageTrace.tla)",
+    technique="TLC model checking (MC_Storage, MC_StorageBulk refinement) + replay of all model sequences on the real Storage + TLC trace validation (StorageTrace.tla, StorageBulkTrace.tla); thorough: TLAPS proof of Dense / Fresh / Stable for any equality and size (tlaps/StorageSafety.tla)",
     design="5 C19"),
  "C07": dict(
     text="MC_Disasm model-checks that the line format is injective on a bounded universe over 720 opcodes of the pinned grammar and that the vocabulary is unambiguous. Disasm.tla gives the header comment (version, registered generator tool names, bound), the one-line-per-instruction rule and the token structure of every line (optional '%id =', 'Op'+name, result type, one token per operand: ids as %n, enumerants and every mask kind by name joined with '|', 'None' for the empty mask, decimals); DisasmTrace checks them on real disassemblies of random loadable modules (any mix of opcodes), of every opcode once and every enumerant / mask bit once, of OpConstant/OpSpecConstant over every int/float width with boundary patterns (plus undeclared / bool types), of OpExtInst with known/unknown sets and numbers and of strings with quotes, backslashes, newlines and non-ASCII. The text is read back by an independent reader that knows only the vocabulary, and TLC checks the result equals the instruction stream (NaN payloads excepted), which also gives injectivity.",
